@@ -103,7 +103,7 @@ IsCmd(c) == Ev.e = "Cmd" /\ Ev.c = c
 
 \* a command the harness knows to be illegal (syntax, sorts, unknown symbols,
 \* wrong mode) must be answered by an error
-MustRejectViol == If(Ev.must = "reject" /\ Ev.r # "error", V("C18", "illegal command accepted"))
+MustRejectViol == If(Ev.must = "reject" /\ Ev.r # "error", V("C18", [m |-> "illegal command accepted"]))
 
 TrReject ==
   /\ Ev.e = "Cmd" /\ Ev.r = "error" /\ Step /\ Reject
@@ -116,13 +116,13 @@ TrReject ==
            If( /\ Ev.c = "assert" /\ Ev.wf /\ NamesFresh(Ev.nm, Ev.inner)
                /\ \E i \in DOMAIN NewNames(Ev.nm, Ev.t, Ev.inner) :
                      NewNames(Ev.nm, Ev.t, Ev.inner)[i].nm \in popped,
-               V("C21", "re-introduction of a popped name rejected")) \cup
+               V("C21", [m |-> "re-introduction of a popped name rejected"])) \cup
            If( /\ Ev.c = "define" /\ Ev.wf /\ DefineFresh(Ev.nm) /\ Ev.nm \in popped,
-               V("C21", "re-definition of a popped function rejected")) \cup
+               V("C21", [m |-> "re-definition of a popped function rejected"])) \cup
            If( /\ Ev.c = "get-interpolants" /\ mode = "unsat" /\ opts.itp = "true"
                /\ \A g \in DOMAIN Ev.groups : GroupLegal(Ev.groups[g]),
-               V("C08", "well-formed interpolation request rejected")) \cup
-           If( Ev.must = "accept", V("C18", "legal command rejected")) )
+               V("C08", [m |-> "well-formed interpolation request rejected"])) \cup
+           If( Ev.must = "accept", V("C18", [m |-> "legal command rejected"])) )
 
 TrSimple ==  \* commands without effect on the modelled state
   /\ Ev.e = "Cmd" /\ Ev.r # "error" /\ Step
@@ -135,7 +135,7 @@ TrSimple ==  \* commands without effect on the modelled state
 TrBad ==  \* text that is not a well-formed command: must be diagnosed, state unchanged
   /\ IsCmd("bad") /\ Ev.r # "error" /\ Step /\ Silent
   /\ UNCHANGED <<run, memo, memoCmd, memoOut, popped, rejSeen, unsatAt, poppedUnsat, rejNamed>>
-  /\ Note({V("C18", "malformed input not diagnosed")})
+  /\ Note({V("C18", [m |-> "malformed input not diagnosed"])})
 
 TrSetLogic ==
   /\ IsCmd("set-logic") /\ Ev.r # "error" /\ Step /\ SetLogicEff /\ CmdMemoUpd(Ev.r)
@@ -151,19 +151,19 @@ TrDefine ==
   /\ IsCmd("define") /\ Ev.r # "error" /\ Step /\ DefineEff(Ev.nm, Ev.p, Ev.b) /\ CmdMemoUpd(Ev.r)
   /\ UNCHANGED <<run, memo, memoOut, popped, rejSeen, unsatAt, poppedUnsat, rejNamed>>
   /\ Note(MustRejectViol \cup
-          If(~DefineFresh(Ev.nm), V("C18", "duplicate definition accepted")))
+          If(~DefineFresh(Ev.nm), V("C18", [m |-> "duplicate definition accepted"])))
 
 TrAssert ==
   /\ IsCmd("assert") /\ Ev.r # "error" /\ Step /\ AssertEff(Ev.t, Ev.nm, Ev.inner) /\ CmdMemoUpd(Ev.r)
   /\ UNCHANGED <<run, memo, memoOut, popped, rejSeen, unsatAt, poppedUnsat, rejNamed>>
   /\ Note(MustRejectViol \cup CmdMemoViol(Ev.r) \cup
-          If(~NamesFresh(Ev.nm, Ev.inner), V("C18", "duplicate name accepted")))
+          If(~NamesFresh(Ev.nm, Ev.inner), V("C18", [m |-> "duplicate name accepted"])))
 
 TrPush ==
   /\ IsCmd("push") /\ Ev.r # "error" /\ Step /\ PushEff(Ev.n) /\ CmdMemoUpd(Ev.r)
   /\ UNCHANGED <<run, memo, memoOut, popped, rejSeen, unsatAt, poppedUnsat, rejNamed>>
   /\ Note(MustRejectViol \cup CmdMemoViol(Ev.r) \cup
-          If(~PushLegal(Ev.n), V("C18", "illegal push accepted")))
+          If(~PushLegal(Ev.n), V("C18", [m |-> "illegal push accepted"])))
 
 TrPop ==
   /\ IsCmd("pop") /\ Ev.r # "error" /\ Step /\ CmdMemoUpd(Ev.r)
@@ -176,7 +176,7 @@ TrPop ==
   /\ poppedUnsat' = (poppedUnsat \/ (PopLegal(Ev.n) /\ \E d \in unsatAt : d > Depth - Ev.n))
   /\ UNCHANGED <<run, memo, memoOut, rejSeen, rejNamed>>
   /\ Note(MustRejectViol \cup CmdMemoViol(Ev.r) \cup
-          If(~PopLegal(Ev.n), V("C18", "illegal pop accepted")))
+          If(~PopLegal(Ev.n), V("C18", [m |-> "illegal pop accepted"])))
 
 \* check-sat: C01, C02 by the kernel; C04, C05 by the memo; C30 on a time-out
 MemoViol(r) ==
@@ -194,9 +194,9 @@ TrCheckSat ==
                 ELSE memo
      /\ CmdMemoUpd(r)
      /\ PrintT("@@SAT " \o ToJson([l |-> l, r |-> r, v |-> v]))
-     /\ Note( If(r = "unsat" /\ v = "sat",  V("C01", "kernel has a model of the active assertions")) \cup
-              If(r = "sat" /\ v = "unsat", V("C02", "kernel refutes the active assertions")) \cup
-              If(r = "timeout" /\ ~run.intl, V("C30", "check-sat did not return")) \cup
+     /\ Note( If(r = "unsat" /\ v = "sat",  V("C01", [m |-> "kernel has a model of the active assertions"])) \cup
+              If(r = "sat" /\ v = "unsat", V("C02", [m |-> "kernel refutes the active assertions"])) \cup
+              If(r = "timeout" /\ ~run.intl, V("C30", [m |-> "check-sat did not return"])) \cup
               MemoViol(r) \cup CmdMemoViol(r) \cup MustRejectViol )
   /\ unsatAt' = IF Ev.r = "unsat" THEN unsatAt \cup {Depth} ELSE unsatAt
   /\ UNCHANGED <<run, memoOut, popped, rejSeen, poppedUnsat, rejNamed>>
@@ -207,17 +207,17 @@ TrGetModel ==
   /\ GetModelEff(IF Ev.pok THEN Ev.m ELSE <<>>) /\ CmdMemoUpd(Ev.r)
   /\ UNCHANGED <<run, memo, memoOut, popped, rejSeen, unsatAt, poppedUnsat, rejNamed>>
   /\ Note( MustRejectViol \cup
-           If(~Ev.pok, V("C17", "printed model is not well-formed SMT-LIB")) \cup
+           If(~Ev.pok, V("C17", [m |-> "printed model is not well-formed SMT-LIB"])) \cup
            IF Ev.pok /\ Ev.mon /\ mode = "sat"
-           THEN IF ~ModelDefinesAll(Ev.m) THEN {V("C03", "model leaves a symbol undefined")}
-                ELSE If(~ModelSatisfies(Ev.m), V("C03", "model falsifies an assertion"))
+           THEN IF ~ModelDefinesAll(Ev.m) THEN {V("C03", [m |-> "model leaves a symbol undefined"])}
+                ELSE If(~ModelSatisfies(Ev.m), V("C03", [m |-> "model falsifies an assertion"]))
            ELSE {} )
 
 TrGetValue ==
   /\ IsCmd("get-value") /\ Ev.r # "error" /\ Step /\ Silent /\ CmdMemoUpd(Ev.r)
   /\ UNCHANGED <<run, memo, memoOut, popped, rejSeen, unsatAt, poppedUnsat, rejNamed>>
   /\ Note( MustRejectViol \cup
-           If(~Ev.pok, V("C17", "printed values are not well-formed SMT-LIB")) \cup
+           If(~Ev.pok, V("C17", [m |-> "printed values are not well-formed SMT-LIB"])) \cup
            IF Ev.pok /\ Ev.mon /\ mode = "sat" /\ model # <<>>
            THEN { V("C03", [value |-> i]) : i \in { j \in DOMAIN Ev.ts : ~ValueOK(model, Ev.ts[j], Ev.vs[j]) } }
            ELSE {} )
@@ -239,20 +239,20 @@ TrGetUnsatCore ==
   /\ IsCmd("get-unsat-core") /\ Ev.r # "error" /\ Step /\ Silent /\ CmdMemoUpd(Ev.r)
   /\ UNCHANGED <<run, memo, memoOut, popped, rejSeen, unsatAt, poppedUnsat, rejNamed>>
   /\ Note( MustRejectViol \cup
-           IF ~Ev.pok THEN {V("C17", "printed core is not well-formed SMT-LIB")}
+           IF ~Ev.pok THEN {V("C17", [m |-> "printed core is not well-formed SMT-LIB"])}
            ELSE IF mode # "unsat" THEN {}
            ELSE IF Ev.full
-           THEN If(Ev.mon /\ ~FullCoreCurrent(Ev.fs, Ev.fx), V("C06", "printed formula is not a current assertion")) \cup
-                If(Ev.mon /\ ~FullCoreUnsat(Ev.fs, Ev.h), V("C06", "printed formulas are satisfiable")) \cup
+           THEN If(Ev.mon /\ ~FullCoreCurrent(Ev.fs, Ev.fx), V("C06", [m |-> "printed formula is not a current assertion"])) \cup
+                If(Ev.mon /\ ~FullCoreUnsat(Ev.fs, Ev.h), V("C06", [m |-> "printed formulas are satisfiable"])) \cup
                 If(Ev.mon /\ opts.mincores = "true" /\ ~FullCoreIrreducible(Ev.fs, Ev.hm),
-                   V("C07", "a printed formula is redundant"))
-           ELSE If(~CoreNoRepeat(Ev.core), V("C06", "name repeated in core")) \cup
+                   V("C07", [m |-> "a printed formula is redundant"]))
+           ELSE If(~CoreNoRepeat(Ev.core), V("C06", [m |-> "name repeated in core"])) \cup
                 { V(IF n \in popped THEN "C21" ELSE "C06", [notACurrentNamedAssertion |-> n]) :
                      n \in CoreNames(Ev.core) \ TopNames } \cup
                 IF CoreCurrent(Ev.core)
-                THEN If(Ev.mon /\ ~CoreUnsat(Ev.core, Ev.h), V("C06", "core with unnamed assertions is satisfiable")) \cup
+                THEN If(Ev.mon /\ ~CoreUnsat(Ev.core, Ev.h), V("C06", [m |-> "core with unnamed assertions is satisfiable"])) \cup
                      If(Ev.mon /\ opts.mincores = "true" /\ CoreNoRepeat(Ev.core) /\ ~CoreIrreducible(Ev.core, Ev.hm),
-                        V("C07", "a core member is redundant"))
+                        V("C07", [m |-> "a core member is redundant"]))
                 ELSE {} )
 
 \* get-interpolants: C08, C09
@@ -260,12 +260,12 @@ TrGetInterpolants ==
   /\ IsCmd("get-interpolants") /\ Ev.r # "error" /\ Step /\ Silent /\ CmdMemoUpd(Ev.r)
   /\ UNCHANGED <<run, memo, memoOut, popped, rejSeen, unsatAt, poppedUnsat, rejNamed>>
   /\ Note( MustRejectViol \cup
-           IF ~Ev.pok THEN {V("C17", "printed interpolants are not well-formed SMT-LIB")}
+           IF ~Ev.pok THEN {V("C17", [m |-> "printed interpolants are not well-formed SMT-LIB"])}
            ELSE IF ~(\A g \in DOMAIN Ev.groups : GroupLegal(Ev.groups[g]))
-           THEN { V("C21", "interpolation over a name that is not a current assertion accepted") }
+           THEN { V("C21", [m |-> "interpolation over a name that is not a current assertion accepted"]) }
            ELSE IF mode # "unsat" \/ ~Ev.mon THEN {}
            ELSE IF Len(Ev.itps) # Len(Ev.groups) - 1
-           THEN {V("C08", "wrong number of interpolants")}
+           THEN {V("C08", [m |-> "wrong number of interpolants"])}
            ELSE UNION { LET A == ASide(Ev.groups, j)
                             B == BSide(Ev.groups, j)
                             tag == IF Len(Ev.groups) > 2 THEN "C09" ELSE "C08" IN
@@ -282,10 +282,10 @@ TrGetProof ==
   /\ IsCmd("get-proof") /\ Ev.r # "error" /\ Step /\ Silent /\ CmdMemoUpd(Ev.r)
   /\ UNCHANGED <<run, memo, memoOut, popped, rejSeen, unsatAt, poppedUnsat, rejNamed>>
   /\ Note( MustRejectViol \cup
-           IF ~Ev.pok THEN {V("C10", "printed proof cannot be read")}
+           IF ~Ev.pok THEN {V("C10", [m |-> "printed proof cannot be read"])}
            ELSE IF mode # "unsat" \/ ~Ev.mon THEN {}
-           ELSE If(~UniqueNames(Ev.nodes), V("C10", "a clause name is bound twice")) \cup
-                If(~BoundBeforeUse(Ev.nodes), V("C10", "a clause name is used before it is bound")) \cup
+           ELSE If(~UniqueNames(Ev.nodes), V("C10", [m |-> "a clause name is bound twice"])) \cup
+                If(~BoundBeforeUse(Ev.nodes), V("C10", [m |-> "a clause name is used before it is bound"])) \cup
                 IF BoundBeforeUse(Ev.nodes) /\ UniqueNames(Ev.nodes)
                 THEN If(~StepsValid(Ev.nodes),
                         V("C10", [badStep |-> "a resolution step has no pivot with opposite signs",
@@ -293,7 +293,7 @@ TrGetProof ==
                                                        tt[Ev.nodes[k].steps[j].p].k = "b"])) \cup
                      If(StepsValid(Ev.nodes) /\ ~RootClosed(Ev.nodes, Ev.root),
                         V("C10", [rootNotBoundOrNotEmpty |-> Ev.root])) \cup
-                     If(~ActivationsCurrent(Ev.nodes, ActiveFids), V("C10", "the proof activates a level that is not on the stack")) \cup
+                     If(~ActivationsCurrent(Ev.nodes, ActiveFids), V("C10", [m |-> "the proof activates a level that is not on the stack"])) \cup
                      { V("C10", [leafNotImplied |-> Ev.nodes[k].id]) :
                           k \in { j \in DOMAIN Ev.nodes : ~LeafImplied(Ev.nodes, j, { Ev.prem[i] : i \in DOMAIN Ev.prem }, Ev.hl[j]) } }
                 ELSE {} )
@@ -308,13 +308,13 @@ TrExit ==
   /\ UNCHANGED <<svars, run, memo, memoCmd, popped, rejSeen, unsatAt, poppedUnsat, rejNamed>>
   /\ Note( If(Ev.sig # 0, V("C18", [signal |-> Ev.sig, site |-> Ev.site])) \cup
            If(Ev.san, V("C18", [sanitizer |-> Ev.site])) \cup
-           If(Ev.to /\ ~Ev.pending, V("C18", "script without pending check-sat did not terminate")) \cup
+           If(Ev.to /\ ~Ev.pending, V("C18", [m |-> "script without pending check-sat did not terminate"])) \cup
            If(~Ev.to /\ Ev.sig = 0 /\ errs > 0 /\ Ev.status = 0,
-              V("C18", "a command was rejected but the exit status is 0")) \cup
+              V("C18", [m |-> "a command was rejected but the exit status is 0"])) \cup
            If(~Ev.to /\ Ev.sig = 0 /\ errs = 0 /\ Ev.nerr = 0 /\ Ev.status # 0,
-              V("C18", "no diagnostic but non-zero exit status")) \cup
+              V("C18", [m |-> "no diagnostic but non-zero exit status"])) \cup
            If(~Ev.to /\ Ev.sig = 0 /\ Ev.synerr /\ Ev.status = 0,
-              V("C18", "syntax error but the exit status is 0")) \cup
+              V("C18", [m |-> "syntax error but the exit status is 0"])) \cup
            IF Ev.det /\ OutKey \in DOMAIN memoOut
               /\ (memoOut[OutKey].outh # Ev.outh \/ memoOut[OutKey].status # Ev.status)
            THEN {V(IF memoOut[OutKey].io # run.io THEN "C20" ELSE "C23",
